@@ -140,10 +140,11 @@ class JobControl:
         return result
 
     def stop_current(self) -> bool:
-        if self._active_agent is not None and self._active_agent.is_running():
+        agent = self._active_agent
+        if agent is not None and agent.is_running():
             if self._acquire_lock():
                 try:
-                    self._active_agent.request_stop()
+                    agent.request_stop()
                 finally:
                     self._release_lock()
                 return True
